@@ -355,6 +355,17 @@ func c40Args(rng *rand.Rand, schema map[string]any, tnames, gnames []string) (js
 			kind = "null_field"
 			continue
 		}
+		switch {
+		case strings.Contains(typ, "integer") || strings.Contains(typ, "number"):
+			obj[k] = json.RawMessage([]string{"0", "1", "3", "-1", "12", "2147483647", "2147483648", "-2147483649", "9223372036854775807", "9223372036854775808", "1e3", "1e309"}[rng.Intn(12)])
+			continue
+		case strings.Contains(typ, "boolean"):
+			obj[k] = json.RawMessage([]string{"true", "false"}[rng.Intn(2)])
+			continue
+		case strings.Contains(typ, "object"):
+			obj[k] = json.RawMessage([]string{`{}`, `{"retention.ms":"1"}`, `{"a":{"b":1}}`}[rng.Intn(3)])
+			continue
+		}
 		if isArr {
 			n := rng.Intn(5)
 			if rng.Intn(40) == 0 { // (multi-thousand element lists cost seconds each under the race detector and add nothing)
